@@ -386,7 +386,7 @@ func runFull(r *hlib.Result, rng *rand.Rand, caseNo, length int) {
 		adult: w.hpB[0].f, danger: w.hpB[1].f, mgr: mgrB})
 	defer os.RemoveAll(w.b.dir)
 
-	kinds := []string{"B", "B", "A", "H", "T"}
+	kinds := []string{"B", "B", "A", "H", "T", "G"}
 	w.lists["rl1"], w.lists["rl2"] = genRules(rng, kinds, false), genRules(rng, kinds, false)
 	w.svcs["svc1"], w.svcs["svc2"] = genRules(rng, []string{"B"}, false), genRules(rng, []string{"B", "A"}, false)
 	w.ssRules, w.ytRules = genRules(rng, []string{"R"}, false), genRules(rng, []string{"R"}, false)
@@ -491,7 +491,7 @@ func runFull(r *hlib.Result, rng *rand.Rand, caseNo, length int) {
 				r.Violate("storage-cache-changes-verdict", fmt.Sprintf("%s: with caches %s; without %s", what, ca, cb), replay)
 				violated = true
 			}
-			if sig, msg := w.versionCheck(ra, i); sig != "" {
+			if sig, msg := w.versionCheck(ra, i, host); sig != "" {
 				r.Violate(sig, what+": "+msg, replay)
 				violated = true
 			}
@@ -506,9 +506,30 @@ func runFull(r *hlib.Result, rng *rand.Rand, caseNo, length int) {
 	r.Sample(map[string]any{"campaign": "full-storage", "ops": log[:min(len(log), 6)]}, 9)
 }
 
+var (
+	reHosts6  = regexp.MustCompile(`^2001:db8::(\d+) ([a-z0-9.]+)$`)
+	reRuleDom = regexp.MustCompile(`^(?:@@)?\|\|([a-z0-9.]+)\^`)
+)
+
+// ruleName is the name a rule of the generator's grammar is written for and
+// whether it also covers the subdomains.
+func ruleName(text string) (name string, subs, ok bool) {
+	if mm := reRuleDom.FindStringSubmatch(text); mm != nil {
+		return mm[1], true, true
+	} else if mm := reHosts.FindStringSubmatch(text); mm != nil {
+		return mm[3], false, true
+	} else if mm := reHosts6.FindStringSubmatch(text); mm != nil {
+		return mm[2], false, true
+	}
+
+	return "", false, false
+}
+
 // versionCheck: the version carried by the answer must be the current version
-// of the list it is attributed to.
-func (w *fullWorld) versionCheck(res filter.Result, prof int) (sig, msg string) {
+// of the list it is attributed to, and the rule it names must be written for
+// one of the names the request or response asked about (an answer built from
+// a rule that some other request matched is state that outlived its request).
+func (w *fullWorld) versionCheck(res filter.Result, prof int, names ...string) (sig, msg string) {
 	var list filter.ID
 	var ruleText string
 	switch v := res.(type) {
@@ -537,8 +558,19 @@ func (w *fullWorld) versionCheck(res filter.Result, prof int) (sig, msg string) 
 	default:
 		return "", ""
 	}
+	if name, subs, ok := ruleName(ruleText); ok && len(names) > 0 && list != filter.IDBlockedService {
+		applies := false
+		for _, n := range names {
+			applies = applies || n == name || (subs && isSuffixDom(n, name))
+		}
+		if !applies {
+			return "answer-rule-does-not-match-name", fmt.Sprintf("rule %q of list %s does not match any of %v", ruleText, list, names)
+		}
+	}
 	got := -1
-	if mm := reVerTag.FindStringSubmatch(ruleText); mm != nil {
+	if mm := reHosts6.FindStringSubmatch(ruleText); mm != nil {
+		got, _ = strconv.Atoi(mm[1])
+	} else if mm := reVerTag.FindStringSubmatch(ruleText); mm != nil {
 		got, _ = strconv.Atoi(mm[1])
 	} else if mm := reHosts.FindStringSubmatch(ruleText); mm != nil {
 		hi, _ := strconv.Atoi(mm[1])
